@@ -98,6 +98,9 @@ func ParseFiles(files map[string]string, main string) (res Result) {
 	if err != nil {
 		return Result{Err: "harness: " + err.Error()}
 	}
+	root := dir
+	dir = filepath.Join(dir, "a", "w")
+	os.MkdirAll(dir, 0o755)
 	for name, content := range files {
 		p := filepath.Join(dir, name)
 		os.MkdirAll(filepath.Dir(p), 0o755)
@@ -108,7 +111,7 @@ func ParseFiles(files map[string]string, main string) (res Result) {
 		os.WriteFile(p, []byte(content), 0o644)
 	}
 	res = parse(parser.Options{FileName: filepath.Join(dir, main)})
-	res.Dir = dir
+	res.Dir = root
 	return res
 }
 
